@@ -70,7 +70,7 @@ NASTY_NAMES = [
 
 
 def random_circuit(rng, n_in=3, n_gates=5, types=GATES, max_fanin=3, p_const=0.0,
-                   n_bb=0, bb_clk=False, cyclic=0, p_out=0.3, names=None, name="c",
+                   n_bb=0, bb_clk=False, bb_qn=False, cyclic=0, p_out=0.3, names=None, name="c",
                    allow_input_output=False, unconnected_pins=0.0, unconnected_in=0.0, x_const=False):
     """A lint-clean random circuit.  Sources first, then gates in topological
     order (so the graph is a DAG), then `cyclic` extra back-edges into
@@ -110,10 +110,12 @@ def random_circuit(rng, n_in=3, n_gates=5, types=GATES, max_fanin=3, p_const=0.0
         if inst.startswith("\\"):
             inst = f"ff{k}"  # escaped *instance* names are outside every property's domain
         pins_in = ["d"] + (["clk"] if bb_clk else [])
-        bbs[inst] = ["ff", pins_in, ["q"]]
+        bbs[inst] = ["ff", pins_in, ["q"] + (["qn"] if bb_qn else [])]
         for p in pins_in:
             nodes.append([f"{inst}.{p}", "bb_input", False])
         nodes.append([f"{inst}.q", "bb_output", False])
+        if bb_qn:
+            nodes.append([f"{inst}.qn", "bb_output", False])   # second (unloaded) output pin, as in Q/QN library cells
         if rng.random() >= unconnected_pins:
             q = nm(f"q{k}")
             nodes.append([q, "buf", False])
